@@ -650,6 +650,17 @@ func (st *ex6State) oracle(v *vio) {
 	for i, o := range st.ops {
 		name := fmt.Sprintf("op %d (%s)", i, o.kind)
 		sol, req, other := splitTxs6(o)
+		switch {
+		case !o.returned:
+		case o.err == nil && o.kind == "rapid" && len(req) == 0:
+			st.s.Probe("op-rapid-reply-returned-directly")
+		case o.err == nil && o.kind == "rapid":
+			st.s.Probe("op-rapid-via-advertise-and-request")
+		case o.err == nil:
+			st.s.Probe("op-" + o.kind + "-succeeded")
+		default:
+			st.s.Probe("op-" + o.kind + "-failed")
+		}
 		if len(other) > 0 {
 			v.add("Y-extra-tx", "%s: transmitted %d message(s) that are neither SOLICIT nor REQUEST", name, len(other))
 		}
